@@ -14,7 +14,7 @@ import (
 
 // Run is the entry point of the C19 checker.
 func Run(ctx *core.Ctx) {
-	ctx.Rule = "render half: every layout of SoyErrPos.tla - (0..2 enclosing blocks from if/foreach/switch/let-content/param-content/log/msg) x (failing command: print, if condition, foreach collection, css, param value, let value, switch subject, plural subject) x call depth 0..3 (callees in a second file whose lines never coincide with the path) x leading lines - one tag per line, exported by TLC with the allowed line interval and rendered by the real code; expected: the file of the entry template and a line on the path from the outermost enclosing command to the failing command / the {call}. parse half: seeded generated valid Soy files of 4..12 lines (one construct per line, nested blocks) x fault kind (illegal character in a tag, stray } in text, unterminated string / block comment / soydoc / tag, unknown command, unknown closing command, bad number, error inside a quoted attribute expression, block left open, missing {/template}) x EVERY line at which the fault line can be inserted x line ends LF / CRLF / bare CR; expected: ErrFilePos.File() = the name given to parse.SoyFile, Line() within [fault line, fault line] for point faults and [fault line, last line] for unterminated constructs, always within 1..lines(input), and the same file name and line number in Error(). A case is non-trivial when the faulty file yields an error; distinct by (file text, fault, line)"
+	ctx.Rule = "render half: every layout of SoyErrPos.tla - (0..2 enclosing blocks from if/foreach/switch/let-content/param-content/log/msg) x (failing command: print, if condition, foreach collection, css, param value, let value, switch subject, plural subject) x call depth 0..3 (callees in a second file whose lines never coincide with the path) x leading lines - one tag per line, exported by TLC with the allowed line interval and rendered by the real code; expected: the file of the entry template and a line on the path from the outermost enclosing command to the failing command / the {call}. parse half: seeded generated valid Soy files of 4..12 lines (one construct per line, nested blocks) x fault kind (illegal character in a tag, stray } in text, unterminated string / block comment / soydoc / tag, unknown command, unknown closing command, bad number, error inside a quoted attribute expression, block left open, missing {/template}) x EVERY line at which the fault line can be inserted x line ends LF / CRLF / bare CR x file end (one newline / none / several; the fault is also made the LAST line); expected: ErrFilePos.File() = the name given to parse.SoyFile, Line() within [fault line, fault line] for point faults and [fault line, last line] for unterminated constructs, always within 1..lines(input), and the same file name and line number in Error(). A case is non-trivial when the faulty file yields an error; distinct by (file text, fault, line)"
 	ctx.Assumptions = append(ctx.Assumptions,
 		"a line number is 1 + the number of LF before the position (CRLF counts once); in files with bare CR line ends both readings (CR ends a line / only LF does) are accepted: line 1 or the line by CR count",
 		"lines(input) is taken as 1+count(newline): a position at the very end of an input that ends in a newline is accepted",
